@@ -146,6 +146,100 @@ def build_route_impl(sigs, kw):
     return "ok " + ";".join(",".join(got.get(i, ["<not called>"])) for i in range(len(sigs)))
 
 
+# ---- nested build routing (BNode trees): leaf = detector overriding build_antennas, group = detector made of
+#      sub-detectors that keeps the default build_antennas, assembled by a random recipe
+def gen_bnode(run, st, depth, pool_sigs):
+    if depth <= 0 or run.rng.random() < 0.45:
+        st["tag"] += 1
+        return ("F", st["tag"], list(run.rng.choice(pool_sigs)))
+    return ("G", [gen_bnode(run, st, depth - 1, pool_sigs) for _ in range(run.rng.randint(1, 3))])
+
+
+def btoks(b):
+    if b[0] == "F":
+        return "F %d %d%s" % (b[1], len(b[2]), "".join(" " + x for x in b[2]))
+    return "G %d%s" % (len(b[1]), "".join(" " + btoks(x) for x in b[1]))
+
+
+def bbuild_obj(run, b, recipes):
+    """build the real detector for a BNode with a random assembly recipe.
+    Returns (object, effective BNode, is CombinedDetector): `+`, `+=` and `sum` splice the members of a
+    CombinedDetector operand into the result (see Det.add), so the effective tree can be flatter than `b`."""
+    pyrex = _pyrex()
+    CD = pyrex.detector.CombinedDetector
+    if b[0] == "F":
+        return build_class(b[2])([ant_class()(1000 + b[1], False, False, False)], tag=b[1]), b, False
+    subs = [bbuild_obj(run, x, recipes) for x in b[1]]
+    recipe = run.rng.choice(["ctor", "grown_empty", "grown_first", "subclass", "sum"])
+    recipes.append(recipe)
+    splice = lambda kids, x: kids + (list(x[1][1]) if x[2] else [x[1]])
+    if recipe == "ctor":
+        return CD(*[x[0] for x in subs]), ("G", [x[1] for x in subs]), True
+    if recipe == "grown_empty":
+        c, kids = CD(), []
+        for x in subs:
+            c += x[0]
+            kids = splice(kids, x)
+        return c, ("G", kids), True
+    if recipe == "grown_first":
+        c, kids = CD(subs[0][0]), [subs[0][1]]
+        for x in subs[1:]:
+            c += x[0]
+            kids = splice(kids, x)
+        return c, ("G", kids), True
+    if recipe == "sum":
+        acc = subs[0]                     # 0 + x is x itself
+        for x in subs[1:]:
+            obj = acc[0] + x[0]
+            if acc[2]:                    # CombinedDetector.__add__ splices its own members (and x's if combined)
+                acc = (obj, ("G", splice(list(acc[1][1]), x)), True)
+            else:                         # Detector.__add__: CombinedDetector(self, other), both nested
+                acc = (obj, ("G", [acc[1], x[1]]), True)
+        return acc
+
+    class Parent(pyrex.Detector):
+        def set_positions(self, subsets):
+            self.subsets = list(subsets)
+    return Parent([x[0] for x in subs]), ("G", [x[1] for x in subs]), False
+
+
+def bleaves_of(b):
+    return [b[1]] if b[0] == "F" else [t for x in b[1] for t in bleaves_of(x)]
+
+
+def bsig_of(b):
+    """advertised signature as the property reads it (independent of the Lean model): tuple or None (generic)"""
+    if b[0] == "F":
+        return tuple(b[2])
+    sigs = [bsig_of(x) for x in b[1]]
+    return sigs[0] if all(x == sigs[0] for x in sigs) else None
+
+
+def has_generic_under_hetero(b):
+    """a group advertising the generic signature sits under a parent whose members' signatures differ (K16 class)"""
+    if b[0] == "F":
+        return False
+    sigs = [bsig_of(x) for x in b[1]]
+    hetero = not all(x == sigs[0] for x in sigs)
+    if hetero and any(x[0] == "G" and bsig_of(x) is None for x in b[1]):
+        return True
+    return any(has_generic_under_hetero(x) for x in b[1])
+
+
+def bbuild_impl(run, b, kw, recipes):
+    """-> (status, {tag: received keywords}, effective tree)"""
+    obj, eff, _ = bbuild_obj(run, b, recipes)
+    del BUILD_LOG[:]
+    try:
+        obj.build_antennas(**{k: 1 for k in kw})
+    except TypeError:
+        return "typeerror", None, eff
+    got = {}
+    for t, ks in BUILD_LOG:
+        got[t] = ks
+    return "ok", got, eff
+
+
 # ---- random trees (as nested tuples), their Python objects and their protocol tokens
 def gen_ant(run, st):
     st["id"] += 1
@@ -384,9 +478,38 @@ def correspondence(run):
         expect.append(imp)
         descs.append(("build", tuple(map(tuple, sigs)), tuple(kw)))
         run.count("build_routes")
+    for _ in range(run.scale(60, 600)):
+        st = {"tag": 0}
+        pool = [["antenna_class"] + run.rng.sample(BUILD_POOL, run.rng.randint(0, 2)) for _ in range(run.rng.randint(1, 3))]
+        b = ("G", [gen_bnode(run, st, run.rng.randint(0, 2), pool) for _ in range(run.rng.randint(1, 3))])
+        kw = ["antenna_class"] + run.rng.sample(BUILD_POOL + ["zz"], run.rng.randint(0, 3))
+        recipes = []
+        status, got, b = bbuild_impl(run, b, kw, recipes)     # b := the effective tree after splicing
+        imp = "typeerror" if status == "typeerror" else "ok " + ";".join(
+            "%d:%s" % (t, ",".join(got.get(t, ["<not called>"]))) for t in bleaves_of(b))
+        reqs.append("bbuild %s %d %s" % (btoks(b), len(kw), " ".join(kw)))
+        expect.append(imp)
+        descs.append(("bbuild", btoks(b), tuple(kw), tuple(recipes)))
+        run.count("nested_build_routes")
+        for r_ in recipes:
+            run.count("recipe_" + r_)
+        if has_generic_under_hetero(b):
+            run.count("nested_build_generic_group_under_hetero_parent")
     replies = fw.run_driver("C19", reqs)
     ok = True
     for rq, ex, rp, d in zip(reqs, expect, replies, descs):
+        if d[0] == "bbuild":
+            got = rp if rp == "typeerror" else "ok " + ";".join(
+                part.split(":")[0] + ":" + ",".join(sorted(x for x in part.split(":")[1].split(",") if x))
+                for part in rp[3:].split(";"))
+            run.case(d, nontrivial=True, sample={"request": rq, "model": rp, "recipes": d[3]})
+            if got == ex:
+                run.traces += 1
+            else:
+                ok = False
+                run.note_broken("correspondence: request `%s` (assembled by %s) model `%s` implementation `%s`"
+                                % (rq, d[3], rp, ex))
+            continue
         if d[0] == "build":
             got = rp if rp == "typeerror" else "ok " + ";".join(",".join(sorted(x for x in part.split(",") if x))
                                                                   for part in rp[3:].split(";"))
@@ -473,6 +596,20 @@ def _has_det_everywhere(e):
     return okk(e)
 
 
+def known_probes(run):
+    """K16: keywords do not pass through a nested group whose members have differing build signatures"""
+    b = ("G", [("G", [("F", 1, ["antenna_class", "p"]), ("F", 2, ["antenna_class", "q"])]), ("F", 3, ["antenna_class", "r"])])
+    class _Ctor:      # force the plain constructor recipe
+        @staticmethod
+        def choice(xs):
+            return "ctor"
+    fake = type("R", (), {"rng": _Ctor})()
+    status, got, _ = bbuild_impl(fake, b, ["antenna_class", "p", "q", "r"], [])
+    run.case(("known", "K16"), sample={"K16_probe": got})
+    if status == "ok" and got.get(1) == [] and got.get(2) == [] and got.get(3) == ["antenna_class", "r"]:
+        run.known_finding("K16")
+
+
 def search(run, deep):
     n = run.scale(60, 1500) if not deep else 1500
     for i in range(n):
@@ -488,6 +625,11 @@ def search(run, deep):
         run.case(("routing", str(inp)), nontrivial=True)
         if why:
             run.fail_input("routing", inp, observed=why, what="trigger keyword routing: " + why)
+        inp, why, k16 = build_property_case(run)
+        run.case(("build-nested", inp["tree"], tuple(inp["kw"]), tuple(inp["recipes"])), nontrivial=True)
+        if why:
+            run.fail_input("build-nested", inp, observed=why, what="build keyword routing: " + why,
+                           finding_key="K16" if k16 else None)
     for i in range(n):
         st = {"id": 0, "tag": 0, "p_above": run.rng.choice([0.0, 0.0, 0.1])}
         e = gen_expr(run, st, run.rng.randint(1, 3))
@@ -648,6 +790,41 @@ def routing_case(run):
             return {"sigs": sigs, "kws": kws}, "detector %d (accepts %s%s) received %s, expected %s" % (
                 tag, acc, " + **kwargs" if star else "", got.get(tag), exp)
     return {"sigs": sigs, "kws": kws}, None
+
+
+def build_property_case(run):
+    """property-level expectation (no Lean model): every detector that accepts a keyword receives it, whatever
+    the nesting and the assembly recipe; K16 = a group with the generic signature under a heterogeneous parent"""
+    st = {"tag": 0}
+    pool = [["antenna_class"] + run.rng.sample(BUILD_POOL, run.rng.randint(0, 2)) for _ in range(run.rng.randint(1, 3))]
+    b = ("G", [gen_bnode(run, st, run.rng.randint(0, 2), pool) for _ in range(run.rng.randint(1, 3))])
+    allp = sorted({p_ for s_ in pool for p_ in s_})
+    kw = ["antenna_class"] + run.rng.sample([x for x in allp if x != "antenna_class"], min(2, len(allp) - 1))
+    recipes = []
+    status, got, b = bbuild_impl(run, b, kw, recipes)
+    inp = {"tree": btoks(b), "kw": kw, "recipes": recipes}
+    sig = bsig_of(b)
+    if sig is not None:      # one shared signature: everything is passed down, unknown keywords are an error
+        if status == "typeerror":
+            return inp, (None if any(k not in sig for k in kw) else "TypeError although every keyword is accepted"), False
+        if any(k not in sig for k in kw):
+            return inp, "a keyword no sub-detector accepts was silently dropped", False
+    if status == "typeerror":
+        return inp, None, False
+    leaves = {}
+
+    def walk(x):
+        if x[0] == "F":
+            leaves[x[1]] = x[2]
+        else:
+            for y in x[1]:
+                walk(y)
+    walk(b)
+    for t, ps in leaves.items():
+        exp = sorted(k for k in kw if k in ps)
+        if got.get(t) != exp:
+            return inp, "detector %d (accepts %s) received %s, expected %s" % (t, ps, got.get(t), exp), has_generic_under_hetero(b)
+    return inp, None, False
 
 
 def _all_default(e):
